@@ -4,6 +4,7 @@
 -/
 import AmVerif.Model.Machine
 import AmVerif.Model.QueueProto
+import AmVerif.Model.Pipes
 import AmVerif.Model.RpcCodec
 import AmVerif.Model.Time
 namespace Am
@@ -126,6 +127,9 @@ structure DState where
   fuel : Nat := 200
   codec : CodecState := {}
   qp : QP.St := { flag := false, queue := 0, pcs := [] }
+  pipe : Pipes.Target := {}
+  pipeNew : Bool := true
+  pipeFlat : Bool := false
   qprc : Bool := true
 
 def showState (m : Mach) (res : String) : String :=
@@ -252,8 +256,28 @@ def stepQP (d : DState) (toks : List String) : Option (DState × String) :=
           s!"pc={showPc (s'.pcs.getD i .idle)} flag={if s'.flag then 1 else 0} q={s'.queue} holders={QP.holders s'}")
   | _ => none
 
+/-- pipe commands (C18): `pipes init <new|old> <flat 0|1> <act 0|1>`,
+    `pipes deliver <add|rem> <args 0|1>`, `pipes begin`, `pipes end`. -/
+def stepPipes (d : DState) (toks : List String) : Option (DState × String) :=
+  let show_ := fun (t : Pipes.Target) =>
+    s!"act={if t.act then 1 else 0} q={t.queue.length} busy={if t.busy then 1 else 0}"
+  let go := fun (st : Pipes.Step) =>
+    let dup := if d.pipeNew then Pipes.dupNew else Pipes.dupOld
+    let t' := if d.pipeFlat then Pipes.stepFlat dup d.pipe st else Pipes.step dup d.pipe st
+    some ({ d with pipe := t' }, show_ t')
+  match toks with
+  | ["pipes", "init", rule, flat, act, multi] =>
+    some ({ d with pipe := { act := act == "1", multi := multi == "1" }, pipeNew := rule == "new", pipeFlat := flat == "1" }, "ok")
+  | ["pipes", "deliver", k, a] => go (.deliver { add := k == "add", hasArgs := a == "1" })
+  | ["pipes", "begin"] => go .beginBusy
+  | ["pipes", "end"] => go .endBusy
+  | _ => none
+
 def stepLine (d : DState) (line : String) : DState × String :=
   let toks0 := (line.trimAscii.toString.splitOn " ").filter (· != "")
+  match stepPipes d toks0 with
+  | some r => r
+  | none =>
   match stepQP d toks0 with
   | some r => r
   | none =>
